@@ -827,6 +827,83 @@ pub fn conv_probe_utc(
             ));
         }
     }
+    // The other doors to and from a UTC count: UNIX time is the UTC count shifted by a constant
+    // (2 208 988 800 s), MJD/JDE the count in days shifted by constants; an epoch built through
+    // any of them from this count is this epoch, and its TAI conversion is the one above.
+    // (Away from the ends of Duration's range, where shifting by a constant saturates.)
+    if got == want && calendar_range {
+        const UNIX_OFF_NS: i128 = 2_208_988_800 * NS_PER_S;
+        let unix = duration_ns(u - UNIX_OFF_NS);
+        let unix_s = (u - UNIX_OFF_NS) as f64 / 1e9;
+        for (name, v) in [
+            ("to_unix_seconds", e.to_unix_seconds()),
+            ("to_unix_seconds (from TAI)", tai.to_unix_seconds()),
+            ("to_unix(Unit::Millisecond) / 1000", e.to_unix(hifitime::Unit::Millisecond) / 1000.0),
+        ] {
+            if (v - unix_s).abs() > 1e-6 * (1.0 + unix_s.abs() * 1e-9) {
+                return Err(format!(
+                    "UTC count {u} ns: {name} = {v} s, the count less 2208988800 s is {unix_s} s"
+                ));
+            }
+        }
+        let b = Epoch::from_unix_duration(unix);
+        if b.time_scale != TimeScale::UTC || b.duration != e.duration || b.to_time_scale(TimeScale::TAI).duration != tai.duration {
+            return Err(format!(
+                "UTC count {u} ns: Epoch::from_unix_duration(count - 2208988800 s) is {:?} {:?}, not this UTC epoch",
+                b.duration.to_parts(),
+                b.time_scale
+            ));
+        }
+        if calendar_range {
+            let mjd = 15_020.0 + u as f64 / 86_400e9;
+            let mjd_tai = 15_020.0 + (u + want) as f64 / 86_400e9;
+            for (name, v, w) in [
+                ("to_mjd_utc_days", e.to_mjd_utc_days(), mjd),
+                ("to_mjd_utc_days (from TAI)", tai.to_mjd_utc_days(), mjd),
+                ("to_jde_utc_days", e.to_jde_utc_days(), mjd + 2_400_000.5),
+                ("to_mjd_tai_days", e.to_mjd_tai_days(), mjd_tai),
+                ("to_jde_tai_days", tai.to_jde_tai_days(), mjd_tai + 2_400_000.5),
+            ] {
+                // 1 ms: a day count near 2.4 million resolves half a nanoday (40 us); what matters
+                // here is a wrong offset (a second or more), not the last digits of a view
+                if (v - w).abs() * 86_400.0 > 1e-3 * (1.0 + w.abs() * 1e-6) {
+                    return Err(format!("UTC count {u} ns: {name} = {v} days, the count says {w} days"));
+                }
+            }
+        }
+        if u % NS_PER_S == 0 && u.abs() < 10_000_000_000 * NS_PER_S {
+            let s = (u / NS_PER_S) as f64;
+            for (name, b) in [
+                ("from_utc_seconds", Epoch::from_utc_seconds(s)),
+                ("from_unix_seconds", Epoch::from_unix_seconds(s - 2_208_988_800.0)),
+                ("from_unix_milliseconds", Epoch::from_unix_milliseconds((s - 2_208_988_800.0) * 1000.0)),
+            ] {
+                // (to the microsecond, or to a few units in the last place of an f64 of nanoseconds:
+                // float seconds times 1e9 is not exact beyond 2^53 ns)
+                if b.time_scale != TimeScale::UTC || (parts_ns(b.duration) - u).abs() > 1_000 + (u.abs() >> 50) {
+                    return Err(format!(
+                        "UTC count {u} ns (a whole second): Epoch::{name} of that count gives {:?} {:?}",
+                        b.duration.to_parts(),
+                        b.time_scale
+                    ));
+                }
+            }
+            // and through the calendar: the fields the UTC door shows build this epoch again
+            // (from 1900 on: before it the calendar code has a defect of its own, DESIGN.md 7)
+        }
+        if u % NS_PER_S == 0 && u >= 0 && u < 10_000_000_000 * NS_PER_S {
+            let (y, mo, d, h, mi, sec, ns) = e.to_gregorian_utc();
+            let b = Epoch::from_gregorian_utc(y, mo, d, h, mi, sec, ns);
+            if b.time_scale != TimeScale::UTC || b.duration != e.duration || b.to_time_scale(TimeScale::TAI).duration != tai.duration {
+                return Err(format!(
+                    "UTC count {u} ns (a whole second): from_gregorian_utc{:?} gives {:?} {:?}, not the epoch those fields were read from",
+                    (y, mo, d, h, mi, sec, ns),
+                    b.duration.to_parts(),
+                    b.time_scale
+                ));
+            }
+        }
+    }
     // Float views of the same conversion (1 us tolerance: they are views, not the subject).
     let tai_s = tai_ns as f64 / 1e9;
     for (name, v) in [
